@@ -192,11 +192,6 @@ Proof. reflexivity. Qed.
 Lemma hex_not_quote c : HexDigit c -> (c =? 34) = false /\ lx_is_hex c = true.
 Proof. intros H. split; [unfold HexDigit, Digit in H; lia|now apply is_hex_spec]. Qed.
 
-Lemma scan_chunk chunk s d rest :
-  StringCharacter (fun _ => True) chunk \/ True ->
-  True.
-Proof. auto. Qed.
-
 Section WithSC.
 Variable SC : N -> Prop.
 
@@ -237,9 +232,9 @@ Lemma chunk_first chunk : StringCharacter SC chunk ->
   exists c t, chunk = c :: t /\ c <> 34 /\ lx_is_line_term c = false.
 Proof.
   intros [c Hsc H1 H2 H3|a b c e _ _ _ _ _|c _].
-  - exists c, []. repeat split; auto. destruct (lx_is_line_term c) eqn:X; [apply is_line_term_spec in X; tauto|reflexivity].
-  - eexists _, _. repeat split; [lia|reflexivity].
-  - eexists _, _. repeat split; [lia|reflexivity].
+  - exists c, []. split; [reflexivity|split; [assumption|]]. destruct (lx_is_line_term c) eqn:X; [apply is_line_term_spec in X; tauto|reflexivity].
+  - exists 92, [117; a; b; c; e]. split; [reflexivity|split; [lia|reflexivity]].
+  - exists 92, [c]. split; [reflexivity|split; [lia|reflexivity]].
 Qed.
 
 (* from the second character on, lex_string is lx_scan_str from State::StringLiteral, provided the first
@@ -277,6 +272,14 @@ Qed.
 Lemma BlockTail_nonempty t : BlockTail SC t -> t <> [].
 Proof. intros [| |]; discriminate. Qed.
 
+Lemma BlockTail_len3 t : BlockTail SC t -> exists a b c t', t = a :: b :: c :: t'.
+Proof.
+  induction 1 as [|t Ht IH|c t Hsc H3 H4 Ht IH].
+  - repeat eexists.
+  - repeat eexists.
+  - destruct IH as [a [b [c' [t' ->]]]]. repeat eexists.
+Qed.
+
 Lemma block_tail_scan t : BlockTail SC t -> forall rest, lx_scan_block false (t ++ rest) = (t, rest, true).
 Proof.
   induction 1 as [|t Ht IH|c t Hsc H3 H4 Ht IH]; intros rest.
@@ -287,18 +290,8 @@ Proof.
     destruct (N.eqb_spec c 92) as [->|Hc92].
     + cbn [lx_scan_block]. change (92 =? 34) with false. change (92 =? 92) with true. cbv iota.
       rewrite scan_block_bs, IH; [reflexivity|].
-      intros [r Hr]. apply H4. pose proof (BlockTail_nonempty _ Ht).
-      destruct t as [|a [|b [|c' t']]]; cbn [app] in Hr; try congruence.
-      * destruct rest as [|? [|? [|? ?]]]; cbn in Hr; try discriminate.
-        inversion Ht.
-      * inversion Ht; subst. exfalso.
-        match goal with X : BlockTail SC [_] |- _ => inversion X end.
-        match goal with X : BlockTail SC [] |- _ => inversion X end.
-      * exfalso. inversion Ht; subst.
-        match goal with X : BlockTail SC [_; _] |- _ => inversion X; subst end.
-        all: repeat match goal with X : BlockTail SC [_] |- _ => inversion X; subst
-                              | X : BlockTail SC [] |- _ => inversion X end.
-      * injection Hr as -> -> -> _. eexists. reflexivity.
+      intros [r Hr]. apply H4. destruct (BlockTail_len3 _ Ht) as [x [y [z [t' ->]]]].
+      cbn [app] in Hr. injection Hr as -> -> -> _. eexists. reflexivity.
     + destruct (N.eqb_spec c 34) as [->|Hc34].
       * (* a quote that does not start a closing triple *)
         pose proof (BlockTail_nonempty _ Ht) as Hne.
@@ -325,3 +318,118 @@ Proof.
 Qed.
 
 End WithSC.
+
+(* ---------- every kind ---------- *)
+Section Heads.
+Variable SC : N -> Prop.
+
+Lemma span_head_ext (p : N -> bool) (P : N -> Prop) body tail :
+  (forall x, p x = true <-> P x) -> Forall P body ->
+  exists x rest', lx_span p (body ++ tail) = (body ++ x, rest') /\
+                  x ++ rest' = tail /\ Forall P x /\ ~ starts P rest'.
+Proof.
+  intros Hp Hb. rewrite span_prefix by (eapply forallb_Forall; eauto).
+  destruct (lx_span p tail) as [x r] eqn:E. exists x, r.
+  destruct (span_Forall _ _ _ _ _ Hp E) as [Hx Hr].
+  split; [reflexivity|]. split; [eapply span_app; eauto|]. auto.
+Qed.
+
+Lemma not_line_term_spec c : SC c -> (lx_not_line_term c = true <-> CommentChar SC c).
+Proof.
+  intros Hc. unfold lx_not_line_term, CommentChar. rewrite negb_true_iff.
+  pose proof (is_line_term_spec c). destruct (lx_is_line_term c); intuition congruence.
+Qed.
+
+Lemma empty_string_ext tail : extends [34; 34] tail (lex_string (34 :: tail)).
+Proof.
+  unfold lex_string. change (34 =? 34) with true. cbv iota.
+  destruct tail as [|q t]; [apply ext_here|].
+  destruct (N.eqb_spec q 34) as [->|]; [|apply ext_here].
+  destruct (lx_scan_block false t) as [[d0 rest0] t0] eqn:E.
+  exists (34 :: d0). split; [reflexivity|]. cbn [app]. f_equal. eapply scan_block_app; eauto.
+Qed.
+
+(* a lexeme at the head is swallowed whole *)
+Theorem lexeme_consumed k d tail : Lexeme SC k d ->
+  exists o, lex_head (d ++ tail) = Some o /\ extends d tail o.
+Proof.
+  intros L. destruct L;
+    try (eexists; split; [reflexivity|apply ext_here]).
+  - (* whitespace *)
+    destruct d as [|c body]; [congruence|]. inversion H0 as [|? ? Hc Hb]; subst.
+    cbn [app lex_head]. rewrite lex_one_ws by (now apply is_ws_spec).
+    destruct (span_head_ext lx_is_ws IgnoredChar body tail is_ws_spec Hb) as [x [r [E [Hx _]]]].
+    rewrite E. eexists. split; [reflexivity|]. exists x. auto.
+  - (* comment *)
+    cbn [app lex_head]. rewrite lex_one_hash.
+    assert (Hb : forallb lx_not_line_term body = true).
+    { clear -H. induction H as [|c l [Hc Hl] _ IH]; cbn [forallb]; [reflexivity|]. rewrite IH, andb_true_r.
+      unfold lx_not_line_term. destruct (lx_is_line_term c) eqn:X; [apply is_line_term_spec in X; tauto|reflexivity]. }
+    rewrite span_prefix by exact Hb. destruct (lx_span lx_not_line_term tail) as [x r] eqn:E.
+    eexists. split; [reflexivity|]. exists x. split; [reflexivity|eapply span_app; eauto].
+  - (* name *)
+    destruct H as [c r0 Hc Hr]. cbn [app lex_head]. rewrite lex_one_name by (now apply is_name_start_spec).
+    destruct (span_head_ext is_name_continue NameContinue r0 tail is_name_continue_spec Hr) as [x [r [E [Hx _]]]].
+    rewrite E. eexists. split; [reflexivity|]. exists x. auto.
+  - (* int *)
+    destruct (int_head _ H) as [z Hz]. rewrite Hz. eexists. split; [reflexivity|apply int_cont_ext].
+  - (* float *)
+    destruct (float_head _ H tail) as [E|E]; rewrite E; eexists; (split; [reflexivity|]).
+    + apply frac_cont_ext.
+    + apply num_exp_digits_ext.
+  - (* quoted string *)
+    destruct (list_eq_dec N.eq_dec d [34; 34]) as [->|Hne].
+    + cbn [app lex_head]. rewrite lex_one_quote. eexists. split; [reflexivity|]. apply empty_string_ext.
+    + rewrite (quoted_head SC _ _ H Hne). eexists. split; [reflexivity|apply ext_here].
+  - (* block string *)
+    rewrite (block_head SC _ _ H). eexists. split; [reflexivity|apply ext_here].
+Qed.
+
+(* with its lookahead restriction satisfied, it is returned exactly *)
+Theorem lexeme_exact k d tail : Lexeme SC k d -> Restrict SC k d tail -> k <> TkWhitespace ->
+  Forall SC tail -> lex_head (d ++ tail) = Some (LxTok k, d, tail).
+Proof.
+  intros L R Hk Hsc. destruct L; try reflexivity; cbn [Restrict] in R.
+  - congruence.
+  - (* comment *)
+    cbn [app lex_head]. rewrite lex_one_hash.
+    assert (Hb : forallb lx_not_line_term body = true).
+    { clear -H. induction H as [|c l [Hc Hl] _ IH]; cbn [forallb]; [reflexivity|]. rewrite IH, andb_true_r.
+      unfold lx_not_line_term. destruct (lx_is_line_term c) eqn:X; [apply is_line_term_spec in X; tauto|reflexivity]. }
+    rewrite span_prefix by exact Hb.
+    rewrite span_nil, app_nil_r; [reflexivity|].
+    destruct tail as [|c t]; [exact I|]. cbn [starts] in R. inversion Hsc; subst.
+    unfold CommentChar, lx_not_line_term in *. destruct (lx_is_line_term c) eqn:X; [reflexivity|].
+    exfalso. apply R. split; [assumption|]. rewrite <- is_line_term_spec. congruence.
+  - (* name *)
+    destruct H as [c r0 Hc Hr]. cbn [app lex_head]. rewrite lex_one_name by (now apply is_name_start_spec).
+    rewrite span_prefix by (eapply forallb_Forall; [apply is_name_continue_spec|exact Hr]).
+    rewrite (not_starts_span _ _ _ is_name_continue_spec R), app_nil_r. reflexivity.
+  - (* int *)
+    destruct (int_head _ H) as [z Hz]. rewrite Hz.
+    rewrite int_cont_nodigit by (now apply follow_nodigit). now rewrite after_int_exact.
+  - (* float *)
+    destruct (float_head _ H tail) as [E|E]; rewrite E.
+    + now rewrite frac_cont_exact.
+    + now rewrite exp_digits_exact.
+  - (* quoted *)
+    destruct (list_eq_dec N.eq_dec d [34; 34]) as [->|Hne].
+    + specialize (R eq_refl). cbn [app lex_head]. rewrite lex_one_quote. unfold lex_string.
+      change (34 =? 34) with true. cbv iota. destruct tail as [|q t]; [reflexivity|].
+      cbn [starts] in R. replace (q =? 34) with false by lia. reflexivity.
+    + now apply (quoted_head SC).
+  - now apply (block_head SC).
+Qed.
+
+(* a run of ignored characters at the head: the lexer takes the maximal run *)
+Theorem ignored_head d tail : d <> [] -> Forall IgnoredChar d ->
+  exists x rest', lex_head (d ++ tail) = Some (LxTok TkWhitespace, d ++ x, rest') /\
+                  x ++ rest' = tail /\ Forall IgnoredChar x /\ ~ starts IgnoredChar rest'.
+Proof.
+  intros Hne Hd. destruct d as [|c body]; [congruence|]. inversion Hd as [|? ? Hc Hb]; subst.
+  cbn [app lex_head]. rewrite lex_one_ws by (now apply is_ws_spec).
+  destruct (span_head_ext lx_is_ws IgnoredChar body tail is_ws_spec Hb) as [x [r [E H]]].
+  exists x, r. rewrite E. auto.
+Qed.
+
+End Heads.
